@@ -143,6 +143,46 @@ def r10_4(chk, P):
                'ready_state becomes STREAMSET without the packet having been recognised as a vorbis identification header')
 
 
+def r10_8(chk, P):
+    chk.rule('R10.8', 'serial numbers are compared like with like: the link table holds them as sign-extended longs (they come from '
+             'ogg_page_serialno / ogg_stream_state.serialno, both signed).  In vorbisfile.c every value compared (==, !=) with an '
+             'element of vf->serialnos or with vf->current_serialno, and every value handed to the serial-number lookups, has a '
+             'signed integer type before the implicit conversions of the comparison.  An unsigned 32-bit copy is zero-extended: '
+             'it never equals the stored value of a serial number with bit 31 set, and a seekable read then skips that link\'s '
+             'pages while the streaming decode plays them')
+    n = 0
+
+    def is_serial_loc(F, e):
+        nd = F.ex[F.strip_casts(e)]
+        if nd['k'] == 'member' and nd.get('record') == VF and nd['field'] == 'current_serialno':
+            return True
+        if nd['k'] == 'sub':
+            b = F.ex[F.strip_casts(nd['c'][0])]
+            if b['k'] == 'member' and b.get('record') == VF and b['field'] == 'serialnos':
+                return True
+        return False
+    for F in P.functions():
+        if not F.file.endswith('vorbisfile.c'):
+            continue
+        for e in sorted(F.nodes('bin'), key=lambda x: F.ex[x].get('loc') or [0, 0]):
+            nd = F.ex[e]
+            if nd['op'] not in ('==', '!='):
+                continue
+            for a, b in ((nd['c'][0], nd['c'][1]), (nd['c'][1], nd['c'][0])):
+                if not is_serial_loc(F, a):
+                    continue
+                on = F.ex[F.strip_casts(b)]
+                t = on.get('t', '') or ''
+                if on['k'] == 'ref' and on['decl'].get('kind') in ('var', 'param'):
+                    t = F.vars.get(on['decl'].get('id'), {}).get('t', '') or next((p_['t'] for p_ in F.params if p_['id'] == on['decl'].get('id')), t)
+                bad = 'unsigned' in t or 'uint' in t
+                n += 1
+                chk.ob('R10.8', F.name, f'serial-compared-as-signed@{F.loc(e)}', not bad, F.where(e),
+                       f'`{F.s(e)[:60]}`: the other side has type {t or "?"}' if not bad else
+                       f'`{F.s(e)[:60]}`: a {t} is compared with the sign-extended stored serial number: never equal when bit 31 is set')
+    return n
+
+
 def run(chk, P):
     E = getattr(P, '_effects', None) or k3.Effects(P)
     P._effects = E
@@ -187,6 +227,8 @@ def run(chk, P):
     chk.rule('R10.7', 'streaming and seekable decoding apply the same half-rate setting to every link (same obligations as R20.8)')
     c20.r20_8(common.Proxy(chk, 'R10.7'), P)
     chk.floor('R10.7', 1)
+    r10_8(chk, P)
+    chk.floor('R10.8', 4)
     chk.trusted += ['clang 14 front end', 'K3 effect analysis', 'call graph']
     return ('Path and call-graph rules decide the structural conditions under which delivery cannot matter: short reads commit '
             'exactly what arrived, the caller\'s length clamps before anything is consumed or filtered, and every access mode '
